@@ -319,10 +319,14 @@ package jrpc2
 //@ func (*Server).stopLocked$1
 //@   requires wfServer(s) && held(s.mu) && Server_mu_inv(s)
 //@   requires forall(i int, 0 <= i && i < len(keep) ==> keep[i] != nil && retained(keep[i]))
-//@   modifies map(s.used), fired, keep, retained
+//@   requires ptr(keep) == 0 || isnew(ptr(keep))
+//@   modifies map(s.used), fired, keep, retained, mem(keep)
 //@   at call.log#1 ghostset retained(req) = true
 //@   ensures[C08:notifications-retained] forall(i int, 0 <= i && i < len(cur) && isNote(cur[i]) ==> retained(cur[i]))
-//@   loop 1 invariant Server_mu_inv(s) && forall(i int, 0 <= i && i < len(keep) ==> keep[i] != nil && retained(keep[i]))
+//@   loop 1 invariant Server_mu_inv(s)
+//@   loop 1 invariant forall(i int, 0 <= i && i < len(keep) ==> keep[i] != nil && retained(keep[i]))
+//@   loop 1 invariant ptr(keep) == 0 || isnew(ptr(keep))
+//@   loop 1 invariant !isnew(ptr(cur)) && forall(i int, 0 <= i && i < len(cur) ==> cur[i] != nil)
 //@   loop 1 invariant forall(j int, 0 <= j && j <= rangeindex && isNote(cur[j]) ==> retained(cur[j]))
 
 //@ func (*Server).Stop
@@ -1127,6 +1131,7 @@ package jrpc2
 //@   ensures[C13:one-per-member] result == nil ==> len(*j) == (jsonFirst(str(data)) == '[' ? jsonArrayLen(str(data)) : 1)
 //@   ensures[C02:members] result == nil ==> forall(i int, 0 <= i && i < len(*j) ==> (*j)[i] != nil && allocated((*j)[i]) && (*j)[i].batch == (jsonFirst(str(data)) == '[') && parsedAs((*j)[i], jsonFirst(str(data)) == '[' ? jsonElem(str(data), i) : jsonValueText(str(data))))
 //@   loop 1 invariant len(*j) == rangeindex + 1 && batch == (jsonFirst(str(data)) == '[') && jsonValid(str(data))
+//@   loop 1 invariant ptr(*j) == old(ptr(*j)) || isnew(ptr(*j))
 //@   loop 1 invariant len(msgs) == (batch ? jsonArrayLen(str(data)) : 1) && (len(msgs) > 0 ==> isnew(ptr(msgs)))
 //@   loop 1 invariant forall(i int, 0 <= i && i < len(msgs) ==> str(msgs[i]) == (batch ? jsonElem(str(data), i) : jsonValueText(str(data))))
 //@   loop 1 invariant forall(i int, 0 <= i && i < len(msgs) ==> isnew(ptr(msgs[i])))
